@@ -142,7 +142,7 @@ func runProperty(eng *Engine, o *Options, start time.Time) int {
 			continue
 		}
 		t0 := time.Now()
-		res := safeVerify(eng, fn, eng.contracts.Funcs[k])
+		res := safeVerify2(eng, fn, eng.contracts.Funcs[k], sweepKeys[k])
 		res.GenS = time.Since(t0).Seconds()
 		// keep only relevant obligations
 		var kept []*Obligation
@@ -360,12 +360,16 @@ var standingAssumptions = []string{
 func round3(f float64) float64 { return float64(int(f*1000+0.5)) / 1000 }
 
 func safeVerify(eng *Engine, fn *ssa.Function, ct *Contract) (res *FuncResult) {
+	return safeVerify2(eng, fn, ct, false)
+}
+
+func safeVerify2(eng *Engine, fn *ssa.Function, ct *Contract, sweep bool) (res *FuncResult) {
 	defer func() {
 		if r := recover(); r != nil {
 			res = &FuncResult{Key: fnKey(fn, eng.home), Fn: fn, Contract: ct, SpecErrors: []string{fmt.Sprintf("generator panic in %s: %v", fn.Name(), r)}}
 		}
 	}()
-	return eng.verifyFunction(fn, ct, false)
+	return eng.verifyFunction(fn, ct, sweep)
 }
 
 func matchKnown(known []KnownFinding, prop, fn, ob string) *KnownFinding {
